@@ -319,6 +319,17 @@ impl Family for Fam {
                     18 => {
                         let bytes = s.serialize();
                         let t = CpcSketch::deserialize_with_seed(&bytes, self.seed).expect("round trip");
+                        // CpcWrapper reads the same image without decompressing it: it must agree with the sketch
+                        let w = datasketches::cpc::CpcWrapper::new(&bytes).expect("CpcWrapper::new on the sketch's own image");
+                        use datasketches::common::NumStdDev;
+                        let same = w.lg_k() == t.lg_k()
+                            && w.is_empty() == t.is_empty()
+                            && w.estimate().to_bits() == t.estimate().to_bits()
+                            && [NumStdDev::One, NumStdDev::Two, NumStdDev::Three].iter().all(|k| {
+                                w.lower_bound(*k).to_bits() == t.lower_bound(*k).to_bits()
+                                    && w.upper_bound(*k).to_bits() == t.upper_bound(*k).to_bits()
+                            });
+                        assert!(same, "CpcWrapper disagrees with the deserialized sketch on the sketch's own image");
                         self.sk = Some(t);
                         vec![]
                     }
